@@ -1,6 +1,7 @@
 """C17 - Input validators: correspondence of Input / InputExp with coq/Model/Validate.v"""
 from __future__ import annotations
 
+import itertools
 import edzed
 
 from . import common, drive
@@ -18,7 +19,13 @@ def mk_validators(t):
         kw['allowed'] = [dec(x) for x in t['allowed']]
     if t['check'] is not None:
         acc = [dec(x) for x in t['check']]
-        kw['check'] = lambda v: any(strict_eq(v, x) for x in acc)
+        if t.get('check_style') == 'objects':
+            # a check that answers with true / false VALUES that are not the bool singletons
+            calls = itertools.count()
+            kw['check'] = lambda v: ((1, 'yes', [0], 2.5) if any(strict_eq(v, x) for x in acc)
+                                     else (None, 0, '', (), 0.0))[next(calls) % 4]
+        else:
+            kw['check'] = lambda v: any(strict_eq(v, x) for x in acc)
     if t['schema'] is not None:
         tbl = [(dec(k), r) for k, r in t['schema']]
 
@@ -176,6 +183,9 @@ def rand_tables(rng):
         t['allowed'] = rng.sample(DOM, rng.choice([0, 1, 2, 3, 5, 7]))
     if rng.random() < 0.5:
         t['check'] = rng.sample(DOM, rng.choice([1, 3, 5, 8]))
+        if rng.random() < 0.5:
+            t['check_style'] = 'objects'
+
     if rng.random() < 0.5:
         sch = []
         for v in DOM:
